@@ -162,6 +162,40 @@ struct X {
   ~X() { ++g_ops; check(); if (at_home() && id < VF_NID && g_st[id] != 0) { g_st[id] = 0; --g_alive; } }
 };
 
+// Y: as X (not relocatable, remembers its own address), but its copy operations are noexcept and never fault: the library then
+// selects the code paths reserved for types whose copies cannot throw (e.g. shift-and-fill in insert(pos, n, v)).
+struct Y {
+  uint32_t self;
+  uint8_t id;
+  uint8_t val;
+  bool at_home() const { return self == fold(this); }
+  void check() const {
+    if (!at_home()) bad(BAD_SELF);
+    else if (id >= VF_NID || g_st[id] == 0) bad(BAD_DEAD);
+  }
+  void checksrc() const {
+    check();
+    if (id < VF_NID && g_st[id] == 2) bad(BAD_MOVED_READ);
+  }
+  Y() noexcept : self(fold(this)), val(0) { ++g_ops; id = new_id(); }
+  explicit Y(uint8_t v) noexcept : self(fold(this)), val(v) { ++g_ops; id = new_id(); }
+  Y(const Y &o) noexcept : self(fold(this)), val(o.val) { ++g_ops; o.checksrc(); id = new_id(); }
+  Y(Y &&o) noexcept : self(fold(this)), val(o.val) { ++g_ops; o.checksrc(); id = new_id(); if (o.id < VF_NID) g_st[o.id] = 2; }
+  Y &operator=(const Y &o) noexcept {
+    ++g_ops; check(); o.checksrc();
+    val = o.val; if (id < VF_NID) g_st[id] = 1;
+    return *this;
+  }
+  Y &operator=(Y &&o) noexcept {
+    ++g_ops; check(); o.checksrc();
+    if (this == &o) bad(BAD_SELF_MOVE);
+    else { val = o.val; if (id < VF_NID) g_st[id] = 1; if (o.id < VF_NID) g_st[o.id] = 2; }
+    return *this;
+  }
+  ~Y() { ++g_ops; check(); if (at_home() && id < VF_NID && g_st[id] != 0) { g_st[id] = 0; --g_alive; } }
+};
+static inline bool operator==(const Y &a, const Y &b) { a.checksrc(); b.checksrc(); return a.val == b.val; }
+static inline bool operator<(const Y &a, const Y &b) { a.checksrc(); b.checksrc(); return a.val < b.val; }
 static inline bool operator==(const R &a, const R &b) { a.checksrc(); b.checksrc(); return a.val == b.val; }
 static inline bool operator<(const R &a, const R &b) { a.checksrc(); b.checksrc(); return a.val < b.val; }
 static inline bool operator==(const X &a, const X &b) { a.checksrc(); b.checksrc(); return a.val == b.val; }
@@ -210,6 +244,16 @@ template <> struct Elem<R> {
   static uint8_t val(const R &e) { return e.val; }
   static bool sound(const R &e) { return e.id < VF_NID && g_st[e.id] == 1; }
   static uint8_t id(const R &e) { return e.id; }
+};
+template <> struct Elem<Y> {
+  typedef uint8_t Arg;
+  static Arg arg(uint8_t v) { return v; }
+  static const bool relocatable = false, ledger = true;
+  static Y make(uint8_t v) { return Y(v); }
+  static void construct(void *p, uint8_t v) { ::new (p) Y(v); }
+  static uint8_t val(const Y &e) { return e.val; }
+  static bool sound(const Y &e) { return e.at_home() && e.id < VF_NID && g_st[e.id] == 1; }
+  static uint8_t id(const Y &e) { return e.id; }
 };
 template <> struct Elem<X> {
   typedef uint8_t Arg;
